@@ -224,6 +224,23 @@ def run(rep, tier, seed):
             if d[0] != 'ok' or not gen.val_equiv(t, d[1], v) or d[2] != b'':
                 sig = 'E1-stray-eoo' if (not defMode and wire.e1_applies(t, v)) else 'own-type-rejects'
                 rep.fail(sig, 'decoding with the encoding type: %r' % (d[:3],), dict(replay, bytes=b.hex(), defMode=defMode))
+            # --- the tags on the wire are the type's, however the value reaches the encoder: as a value object of the type, or
+            # as a value object of the bare (untagged) base type handed over together with the type
+            if defMode and t[0] == 'tag' and gen.base_of(t)[0] not in ('choice', 'any'):
+                try:
+                    bare_t = gen.base_of(t)
+                    bare = gen.build_value(bare_t, v)
+                    b_bare = bytes(ber_encoder.encode(bare, asn1Spec=schema))
+                    rep.count('bare-value-with-type')
+                    if b_bare != b:
+                        rep.fail('bare-value-with-type', 'a value object of the untagged base type encoded with asn1Spec=<the tagged type> gives %s, '
+                                 'the value object of the type %s' % (b_bare.hex()[:80], b.hex()[:80]), dict(replay, bytes=b_bare.hex()))
+                except error.PyAsn1Error:
+                    # a refusal emits no identifier octets: not a matter of this property (seen for REAL +-inf, which
+                    # Real.clone() cannot take over from another Real object)
+                    rep.count('bare-value-with-type-refused')
+                except Exception as e:  # noqa
+                    rep.fail('bare-value-with-type:' + codec.classify(e), 'encoding a base-type value object under the tagged type: %r' % (e,), replay)
             # --- deriving sibling types from the same type object leaves the tags it stamps on its values alone
             if defMode:
                 try:
